@@ -24,8 +24,8 @@ REL = F(1, 2 ** 52)
 DMU = u.pc / u.cm ** 3
 
 BOUNDS = {
-    "quick": dict(nchan=[1, 2, 3, 4, 5], Ns=[6, 12, 24]),
-    "thorough": dict(nchan=[1, 2, 3, 4, 5, 6, 8], Ns=[6, 7, 12, 24, 33]),
+    "quick": dict(nchan=[1, 2, 3, 4, 5], Ns=[1, 2, 6, 12, 24]),
+    "thorough": dict(nchan=[1, 2, 3, 4, 5, 6, 8], Ns=[1, 2, 3, 6, 7, 12, 24, 33]),
 }
 FREQS = [(10, "MHz"), (100, "MHz"), (327, "MHz"), (0.4, "GHz"), (1.4e9, "Hz"), (8, "GHz"), (1234.5678, "MHz")]
 DMS = [(0.0, "pc/cm3"), (2.41e-4, "pc/cm3"), (-2.41e-4, "pc/cm3"), (1.0, "pc/cm3"), (-1.0, "pc/cm3"), (56.7, "pc/cm3"),
